@@ -24,7 +24,8 @@ Findings recorded here (details at the statements):
     (the reads) holds unchanged without it.
   * Two checks were missing in the model for these invariants to hold of every accepted event list; both are now in
     `Model/Node.lean`: a parked submission may only write the pool tables (`poolOnly`, reject `parked-wrote`), and
-    a block-table row must be filed under its own stamp (`applyS`: `hexVal key = stamp`).
+    a block-table row must be filed under its own stamp (`applyS`: `hexVal key = stamp`). (Two more were added
+    for the block-table invariants of Proofs/ReachProps.lean: `noBlockWrites` in `addTxs`, `finOnly` in `finaliseOne`.)
   * After an accepted `reorg` that reaches below the window of a pool table (finding F10) and does not panic, the
     plain log of that table can no longer be shown to agree with the table from `Table.Sim` alone; `Reach.inv`
     continues such a table with the log of what it retained (`Table.selfSpec`), `ReachG` excludes such steps.
@@ -1107,6 +1108,10 @@ theorem finaliseOne_ok_node {n : Node} {ts : Nat} {h : String} {count : Nat} {ev
     cases hok
   | none =>
     simp only [finaliseOne, hv] at hok ⊢
+    split at hok
+    · cases hok
+    rename_i hfin
+    rw [if_neg hfin]
     cases h5 : applyEvents n n.nextHeight evs with
     | none => rw [h5] at hok; cases hok
     | some n' =>
